@@ -161,6 +161,10 @@ def run(c):
             pass
         if impl != "ns" and any(m["kind"] == "proc" for m in kept) and pr["kcore_read"] != -2:
             mask_items.append("(%s, %s)" % ("true" if x["init_cmd"] else "false", "true" if pr["kcore_read"] > 0 else "false"))
+        c.cov["masked_directory_probed"] = c.cov.get("masked_directory_probed", 0) + (1 if pr.get("maskdir_write", -2) != -2 else 0)
+        if pr.get("maskdir_write", -2) == 0:
+            c.finding_or_violation(cz("a masked directory accepts new files (a writable place that is not among the declared mounts)", dev_null_in_container=bool(x["init_cmd"])),
+                                   dict(rep, masked_directory="/proc/acpi"), klass="mask")
         if impl != "ns" and any(m["kind"] == "proc" for m in kept) and pr["kcore_read"] not in (0, -2):
             c.finding_or_violation(cz("a masked path reveals content", dev_null_in_container=bool(x["init_cmd"])), dict(rep, bytes_read_from_proc_timer_list=pr["kcore_read"]), klass="mask")
     c.sample({"implementation": metas[0][1], "mounts": cases[0]["mounts"], "mountinfo": (obs[0].get("mountinfo") or "").splitlines()[:10],
